@@ -3,8 +3,8 @@
 (* Layer A for C06 as a trace specification; every record is one case,     *)
 (* judged independently.                                                   *)
 (*  kind "labels": scheme, c, p, sigma, tables = for every label-addressed *)
-(*    table of the index [name, a, bpos] (see Order!LabelOrderWhy): a from *)
-(*    EDBSetup(K, DB), bpos from EDBSetup(K, sigma(DB)); both indexes are  *)
+(*    table of the index [name, a, b, bpos] (see Order!LabelOrderWhy): a   *)
+(*    from EDBSetup(K, DB), b from EDBSetup(K, sigma(DB)); both indexes are *)
 (*    read back from EDB.serialize() (header + pickle).                    *)
 (*    Clauses: NoRaiseOnValid, LabelOrder:sorted, LabelOrder:equal.        *)
 (*    Drift (Layer B): table sizes differ from the model's.                *)
